@@ -8,4 +8,6 @@ func init() {
 	regConstAs("P_MaxSubBlockSize", "datatype/common/labels", "MaxSubBlockSize")
 	regConstAs("P_EncodingBinary", "dvid", "EncodingBinary")
 	regTable("P_leftBitMask", "datatype/common/labels", "leftBitMask")
+	// shard count of the label-index locks: the driver picks label ids that collide in every shard
+	regConstAs("P_numIndexShards", "datatype/labelmap", "numIndexShards")
 }
